@@ -137,8 +137,9 @@ def run_traces(ctx, sources):
     can2['toks'][len(can2['toks']) // 2]['col'] += 1
     verdicts = ctx.validate('TraceLex', traces + [can, can2])
     ctx.traces -= 2
-    ctx.canary(verdicts[-2][0] == 'kind', 'token kind corrupted')
-    ctx.canary(verdicts[-1][0] in ('linecol', 'extent'), 'column corrupted')
+    if verdicts[0][0] == 'ok':      # (the canaries are copies of trace 0; if that one is rejected the alarm is raised anyway)
+        ctx.canary(verdicts[-2][0] == 'kind', 'token kind corrupted')
+        ctx.canary(verdicts[-1][0] in ('linecol', 'extent'), 'column corrupted')
     for (name, cname, src, err), v in zip(meta, verdicts):
         if v[0] == 'ok':
             ctx.nontrivial += 1
